@@ -122,4 +122,22 @@ def handleLLTreeCheck : List String → Option String
     | some why => some s!"fail {why}"
   | _ => none
 
+-- @handler lr-tree-check handleLRTreeCheck
+/-- `lr-tree-check <start> <tprods> <tokens> <actions> <tree>` (successful, untrimmed LR run);
+    `tprods` are the transformed grammar's productions with their symbols (`lhs:sym,sym;…`). -/
+def handleLRTreeCheck : List String → Option String
+  | [st, gps, toks, acts, tree] => do
+    let st ← st.toNat?
+    let gps ← parseRules gps
+    let toks ← parseToks toks
+    let acts ← parseActions acts
+    let tree ← parseTree tree
+    let rhsOf := fun (p : Nat) => gps[p]?.map (fun r => r.rhs.map (fun s => match s with
+      | .t a => PT.t a
+      | .n a => PT.n a))
+    match treeCheck st (fun p => gps[p]?.map (·.lhs)) rhsOf toks acts tree with
+    | none => some "ok"
+    | some why => some s!"fail {why}"
+  | _ => none
+
 end ParolModel
